@@ -446,12 +446,16 @@ func (s *sharedEntryAttributes) shouldDelete() bool {
 	// but a real delete should only be added if there is at least one shouldDelete() == true
 	shouldDelete := false
 
+	// a child that has to remain, prevents the deletion of this entry
+	childRemains := false
+
 	// iterate through the active childs
 	for _, c := range s.filterActiveChoiceCaseChilds() {
 		// check if the child can be deleted
 		canDelete = c.canDelete()
 		// if it can explicitly not be deleted, then the result is clear, we should not delete
 		if !canDelete {
+			childRemains = true
 			break
 		}
 		// if it can be deleted we need to check if there is a contibuting entry that
@@ -469,7 +473,9 @@ func (s *sharedEntryAttributes) shouldDelete() bool {
 	//     shouldDelete() [only if an entry is explicitly to be deleted, issue a delete]
 	//   and
 	//     s.leafVariants.canDelete()
-	result := leafVariantshouldDelete || (canDelete && shouldDelete && s.leafVariants.canDelete())
+	// a presence container carries a leafVariant and childs at the same time. If the presence leafVariant is
+	// to be deleted but childs have to remain, the container must not be deleted, since that takes the childs with it.
+	result := (leafVariantshouldDelete && !childRemains) || (canDelete && shouldDelete && s.leafVariants.canDelete())
 
 	s.cacheShouldDelete = &result
 	return result
